@@ -721,6 +721,14 @@ class Repo:
                 return []
         else:
             start = entry
+        ck = (c, start, prune)
+        cache = self.__dict__.setdefault("_reach_cache", {})
+        if ck in cache:
+            return list(cache[ck])
+        cache[ck] = self._reachable_from(c, start, prune)
+        return list(cache[ck])
+
+    def _reachable_from(self, c, start, prune):
         seen: Dict[Tuple[Func, frozenset], None] = {}
         order: List[Func] = []
         todo: List[Tuple[Func, frozenset]] = [(start, frozenset())]
